@@ -7,7 +7,9 @@ cd $A
 for f in $(find lean/JrsVerif/Model lean/JrsVerif/Proofs lean/JrsVerif/Spec lean/JrsVerif/Props/$P.lean lean/JrsVerif/Drv/$P.lean lean/JrsVerif/Drv/$P extract/ex_*.py harness/src/engines/$p.rs harness/src/engines/${p}_* harness/src/engines/$p checks/props/$P.py checks/classifiers/$P.py checks/${p}_* checks/$P* harness/corpus/$P 2>/dev/null -type f); do
   if [ ! -f /verif/$f ] || ! cmp -s $f /verif/$f; then
     case $f in
-      lean/JrsVerif/Model/Arr.lean|lean/JrsVerif/Proofs/Arr.lean|lean/JrsVerif/Model/Obj.lean|lean/JrsVerif/Proofs/Obj.lean|lean/JrsVerif/Model/Eval.lean) continue;;
+      lean/JrsVerif/Model/*|lean/JrsVerif/Proofs/*|lean/JrsVerif/Spec/*|extract/ex_*)
+        # shared namespaces: only files that do not exist yet in /verif (never overwrite another property's file)
+        if [ -f /verif/$f ]; then echo "SKIP existing $f"; continue; fi;;
     esac
     mkdir -p /verif/$(dirname $f); cp $f /verif/$f; echo "copied $f"
   fi
